@@ -42,7 +42,7 @@ PROBES = ["torn_index_seen_by_reader", "hole_state_seen"]
 
 
 def n_runs(tier):
-    return 400 if tier == "quick" else 2 * SHARDS + 4000
+    return 320 if tier == "quick" else 2 * SHARDS + 4000
 
 
 def _small_world(rng, backends):
@@ -88,7 +88,15 @@ def generate(rng, tier, index):
             # crash just before the n-th disk-mutating operation of the writer (mkdir, open, each
             # write chunk, close, rename, unlink, ...) - whatever protocol the writer follows
             plan["chunk"] = rng.choice([64, 512, 4096, 1 << 30])
-        plan["preexisting"] = rng.choice(["none", "none", "complete"])
+        # "moved": complete indexes that were made when the product lived elsewhere (the stored
+        # location differs, the meaning is the same) are already in both cache locations
+        plan["preexisting"] = rng.choice(["none", "none", "complete", "moved"])
+        plan["moved_where"] = rng.choice(["user", "adjacent", "adjacent", "both"])
+        if plan["preexisting"] == "moved":
+            # the old and the new document differ late in the text (stored location): several
+            # crash points per run, most of them in the last third
+            plan["ats"] = [plan["at"]] + [{"frac": 0.66 + 0.34 * rng.random()} for _ in range(4)] \
+                + [{"fromend": rng.randint(1, 300)}, {"frac": rng.random()}]
         return plan
     plan["sched_seed"] = rng.randrange(2**31)
     plan["switch_p"] = rng.choice([1.0, 0.5, 0.2, 0.05])
@@ -350,11 +358,59 @@ def _writer(c, kind, image=None):
     return "option"
 
 
+def _moved_doc(doc):
+    """the same index as made at another location of the product (other bytes, other length)"""
+    import json
+
+    def find_root(obj):
+        if isinstance(obj, dict):
+            if obj.get("__type__") == "backend_array" and isinstance(obj.get("root"), str):
+                return obj["root"]
+            for v in obj.values():
+                r = find_root(v)
+                if r:
+                    return r
+        elif isinstance(obj, list):
+            for v in obj:
+                r = find_root(v)
+                if r:
+                    return r
+        return None
+
+    try:
+        root = find_root(json.loads(doc))
+    except Exception:  # noqa: BLE001
+        return doc
+    if not root:
+        return doc
+    old = json.dumps(root)[1:-1].encode()
+    return doc.replace(old, b"/mnt/archive/2019/where-the-product-was-before")
+
+
 def run_s1_s2(c, ref):
     plan = c.plan
     docs, hashdir = _produce_docs(c)
-    if plan.get("preexisting") != "complete":
+    bad_ats = []
+    for at in plan.get("ats") or [plan["at"]]:
+        n_before = len(c.violations)
+        _run_s1_s2_once(c, ref, docs, hashdir, at)
+        if len(c.violations) > n_before:
+            bad_ats.append(at)
+    if bad_ats and plan.get("ats") and len(bad_ats) < len(plan["ats"]):
+        return {"ats": bad_ats, "at": bad_ats[0]}
+
+
+def _run_s1_s2_once(c, ref, docs, hashdir, at):
+    plan = c.plan
+    if plan.get("preexisting") != "complete" or plan.get("ats"):
         _clear(c)
+    if plan.get("preexisting") == "moved":
+        where = plan.get("moved_where", "both")
+        for name, d in docs.items():
+            if where in ("user", "both"):
+                c.w.plant_user(hashdir, name, _moved_doc(d))
+            if where in ("adjacent", "both"):
+                c.w.plant_adjacent(name, _moved_doc(d))
     scen = plan["scenario"]
     writer = plan["writer"]
     if writer == "cli":
@@ -363,13 +419,13 @@ def run_s1_s2(c, ref):
     else:
         img = sorted(docs)[plan["nth"] % len(docs)]
         match, nth = "xdg/", plan["nth"]
-    if isinstance(plan["at"], dict) and "event" in plan["at"]:
+    if isinstance(at, dict) and "event" in at:
         k = "event"
         SIM.write_plan = {"kind": "kill" if scen == "S1" else "enospc", "actor": "W",
-                          "at_event": plan["at"]["event"]}
+                          "at_event": at["event"]}
         SIM.write_chunk = plan.get("chunk", 1 << 30)
     else:
-        k = resolve_k(plan["at"], docs[img])
+        k = resolve_k(at, docs[img])
         SIM.write_plan = {"kind": "kill" if scen == "S1" else "enospc", "actor": "W",
                           "match": match, "nth": nth, "at": k}
     SIM.actor = "W"
@@ -704,6 +760,9 @@ def shrink(plan):
         yield common.with_(plan, ks=ks[half:])
         for k in ks[:12]:
             yield common.with_(plan, ks=[k])
+    if plan.get("ats") and len(plan["ats"]) > 1:
+        for a in plan["ats"]:
+            yield common.with_(plan, ats=[a], at=a)
     if plan.get("preexisting") == "complete":
         yield common.with_(plan, preexisting="none")
     if plan.get("others") == "complete":
